@@ -529,3 +529,90 @@ Proof.
   intros H r Hr seeds order P. rewrite forallb_forall in H. specialize (H r Hr).
   destruct (snd r); [|discriminate]. apply islands_map_permutation, P.
 Qed.
+
+(* ------------------------------------------------------------------ one thread of control *)
+
+Section BracketFacts.
+  Variable gen : Type.
+  Variable seed_gen : Z -> gen.
+
+  (* where everything unwinds to: the state saved by the outermost open bracket, or - with no bracket
+     open - the current state *)
+  Definition bottom (g : gen) (saved : list (Z * gen)) : gen :=
+    match rev saved with (_, g0) :: _ => g0 | [] => g end.
+
+  Lemma bottom_push g saved t g1 :
+    bottom g1 ((t, g) :: saved) = bottom g saved.
+  Proof.
+    unfold bottom. cbn [rev]. destruct (rev saved) as [|[t0 g0] r] eqn:E; reflexivity.
+  Qed.
+
+  Lemma bottom_pop g saved t gs :
+    bottom gs saved = bottom g ((t, gs) :: saved).
+  Proof. symmetry. apply bottom_push. Qed.
+
+  (* under the LIFO discipline the exiting thread's saved state is the top of the stack *)
+  Lemma take_saved_top t g saved : take_saved gen t ((t, g) :: saved) = Some (g, saved).
+  Proof. cbn. rewrite Z.eqb_refl. reflexivity. Qed.
+
+  Lemma lifo_run_bottom tr :
+    forall g saved st',
+      lifo_run tr (map fst saved) = Some st' ->
+      let '(g', saved') := run_steps gen seed_gen tr g saved in
+      map fst saved' = st' /\ bottom g' saved' = bottom g saved.
+  Proof.
+    induction tr as [|[t s|t] r IH]; intros g saved st' H.
+    - cbn in *. inversion H. auto.
+    - cbn [lifo_run] in H. cbn [run_steps].
+      specialize (IH (seed_gen s) ((t, g) :: saved) st' H).
+      destruct (run_steps gen seed_gen r (seed_gen s) ((t, g) :: saved)) as [g' saved'].
+      destruct IH as [IH1 IH2]. split; [exact IH1|]. rewrite IH2. apply bottom_push.
+    - cbn [lifo_run] in H. destruct saved as [|[t' gs] saved]; cbn [map fst] in H; [discriminate|].
+      destruct (t =? t') eqn:E; [|discriminate]. apply Z.eqb_eq in E. subst t'.
+      cbn [run_steps]. rewrite take_saved_top.
+      specialize (IH gs saved st' H).
+      destruct (run_steps gen seed_gen r gs saved) as [g' saved'].
+      destruct IH as [IH1 IH2]. split; [exact IH1|]. rewrite IH2. apply bottom_pop.
+  Qed.
+
+  (* THE single-thread guarantee: if the brackets on the shared generator are entered and left in LIFO
+     order - whatever threads take part, however deeply they nest - the generator ends exactly where it
+     started *)
+  Lemma lifo_restores tr g :
+    lifo tr = true -> run_steps gen seed_gen tr g [] = (g, []).
+  Proof.
+    unfold lifo. destruct (lifo_run tr []) as [[|x st]|] eqn:E; try discriminate. intros _.
+    pose proof (lifo_run_bottom tr g [] [] E) as H.
+    destruct (run_steps gen seed_gen tr g []) as [g' saved']. destruct H as [H1 H2].
+    destruct saved'; [|discriminate]. unfold bottom in H2. cbn in H2. subst. reflexivity.
+  Qed.
+End BracketFacts.
+
+Lemma lifo_run_app a b st st1 :
+  lifo_run a st = Some st1 -> lifo_run (a ++ b) st = lifo_run b st1.
+Proof.
+  revert st. induction a as [|[t s|t] r IH]; intros st H; cbn in *.
+  - inversion H. reflexivity.
+  - apply IH, H.
+  - destruct st as [|t' st]; [discriminate|]. destruct (t =? t'); [apply IH, H | discriminate].
+Qed.
+
+(* every program of the model, run by one thread, uses the brackets in LIFO order *)
+Lemma btrace_lifo_run p : forall st, lifo_run (btrace p) st = Some st.
+Proof.
+  induction p as [| k | | a IHa b IHb | [s|] a IHa | | s | i a IHa b IHb]; intros st; cbn [btrace]; try reflexivity.
+  - destruct (raises a); [apply IHa|]. rewrite (lifo_run_app _ _ _ _ (IHa st)). apply IHb.
+  - cbn [lifo_run]. rewrite (lifo_run_app _ _ _ _ (IHa (0 :: st))). cbn. reflexivity.
+  - apply IHa.
+  - destruct (raises a); [apply IHa|]. rewrite (lifo_run_app _ _ _ _ (IHa st)). apply IHb.
+Qed.
+
+Lemma btrace_lifo p : lifo (btrace p) = true.
+Proof. unfold lifo. rewrite btrace_lifo_run. reflexivity. Qed.
+
+(* two threads whose brackets overlap without nesting: the second one saved the FIRST one's seeded
+   state and puts it back last - the process-wide generator is left in the seed-1 stream *)
+Lemma interleaved_brackets_leak :
+  let tr := [BEnter 1 1; BEnter 2 2; BExit 1; BExit 2] in
+  lifo tr = false /\ fst (run_steps fgen fseed tr g_init []) = fseed 1 /\ fseed 1 <> g_init.
+Proof. vm_compute. repeat split; discriminate. Qed.
